@@ -112,7 +112,7 @@ def c11(ck, replay=None):
     # thread servlet trees under detsched: a worker at ANY position of a compound tree fails in __init__; workloads with
     # failing / timed-out / abandoned requests; exit; re-entry - all schedule-controlled
     from mbt.bind import lifecycle_threads as LT
-    tscs = LT.gen_scenarios(rnd, 120 if thorough else 30)
+    tscs = LT.gen_scenarios(rnd, 400 if thorough else 30)
     titems, n = [], 0
     for sc in tscs:
         if sc['total'] > 4:
